@@ -129,6 +129,15 @@ def tmpl_extra_deps_plain(p, f, i):
              [] if f else ['xq%d.c' % i])
 
 
+def tmpl_nodist_dir_then_file(p, f, i):
+    """a directory enumerated with dist=False, one of whose files is then used (and so registered
+    again) by an ordinary builtin: that file is read by the build and must be distributed"""
+    return T(["nd%d = directory('nd%d', include='*', dist=False)" % (i, i),
+              "default(copy_file('nd%d_copy.txt', generic_file('nd%d/keep.txt'%s)))" % (i, i, d(f))],
+             {'nd%d/keep.txt' % i: 'k\n', 'nd%d/notes.txt' % i: 'n\n'},
+             ['nd%d/keep.txt' % i] if f else [], ['nd%d/notes.txt' % i] + ([] if f else ['nd%d/keep.txt' % i]))
+
+
 def tmpl_prebuilt(p, f, i):
     return T(["pre%d = static_library('pre%d/libx.a'%s)" % (i, i, d(f)),
               "executable('pb%d', ['ps%d.c'], libs=[pre%d])" % (i, i, i)],
@@ -157,7 +166,8 @@ TEMPLATES = [('exe', tmpl_exe), ('plain-string-sources', tmpl_plain_strings), ('
              ('find_platform', tmpl_find_platform), ('find_nocache', tmpl_find_nocache),
              ('extra_dist', tmpl_extra_dist), ('man_page', tmpl_man),
              ('copy_file', tmpl_copy), ('build_step-cmd-file', tmpl_step), ('build_step-files', tmpl_step_files),
-             ('extra_deps', tmpl_extra_deps), ('extra_deps-plain', tmpl_extra_deps_plain), ('prebuilt_library', tmpl_prebuilt), ('directory', tmpl_directory)]
+             ('extra_deps', tmpl_extra_deps), ('extra_deps-plain', tmpl_extra_deps_plain),
+             ('nodist-directory-then-file', tmpl_nodist_dir_then_file), ('prebuilt_library', tmpl_prebuilt), ('directory', tmpl_directory)]
 TD = dict(TEMPLATES)
 PLACES = ['', 'sub', 'sub/deep']
 
